@@ -39,7 +39,7 @@ parse_from.define = lambda b, s, i: z3.If(
     z3.Or(s <= 0, i < 0, i >= Len(b)), z3.Empty(BLS),
     z3.If(Ext(b, i, s) == zeros(Len(Ext(b, i, s))), z3.Empty(BLS),
           z3.Concat(z3.Unit(Ext(b, i, s)), parse_from(b, s, i + s))))
-parse = specfn("parse", [TBytes, TInt], BL, py=lambda b, s: _parse_py(b, s, 0))
+parse = specfn("parse", [TBytes, TInt], BL, py=lambda b, s: _parse_py(b, s, 0), macro=True)
 parse.define = lambda b, s: parse_from(b, s, 0)
 
 pad = specfn("pad", [TBytes, TInt], TBytes, py=lambda b, n: b + b"\x00" * max(0, n - len(b)),
@@ -59,7 +59,7 @@ part_from = specfn("part_from", [BL, TInt, TInt, TInt], BL, py=_part_py,
 part_from.define = lambda ids, cap, bs, i: z3.If(
     z3.Or(cap <= 0, i < 0, i >= Len(ids)), z3.Empty(BLS),
     z3.Concat(z3.Unit(pad(joinr(ids, i, z3.If(i + cap <= Len(ids), i + cap, Len(ids))), bs)), part_from(ids, cap, bs, i + cap)))
-part = specfn("part", [BL, TInt, TInt], BL, py=lambda ids, cap, bs: _part_py(ids, cap, bs, 0))
+part = specfn("part", [BL, TInt, TInt], BL, py=lambda ids, cap, bs: _part_py(ids, cap, bs, 0), macro=True)
 part.define = lambda ids, cap, bs: part_from(ids, cap, bs, 0)
 
 
@@ -137,7 +137,7 @@ BLLS = sort(TList(BL))
 il = z3.Const("il", ILS)
 all_nonneg_upto = specfn("all_nonneg_upto", [TList(TInt), TInt], TBool, py=lambda xs, k: all(x >= 0 for x in xs[:max(k, 0)]))
 all_nonneg_upto.define = lambda xs, k: z3.If(k <= 0, True, z3.And(xs[k - 1] >= 0, all_nonneg_upto(xs, k - 1)))
-all_nonneg = specfn("all_nonneg", [TList(TInt)], TBool, py=lambda xs: all(x >= 0 for x in xs))
+all_nonneg = specfn("all_nonneg", [TList(TInt)], TBool, py=lambda xs: all(x >= 0 for x in xs), macro=True)
 all_nonneg.define = lambda xs: all_nonneg_upto(xs, Len(xs))
 pieces = specfn("pieces", [TBytes, TList(TInt), TInt], BL,
                 py=lambda x, ls, k: [x[sum(ls[:j]):sum(ls[:j + 1])] for j in range(max(k, 0))],
@@ -244,3 +244,90 @@ contract("toolkit/list_utils.py:chunks",
          ensures=["result == chunks_from(lst, n, 0)"],
          loops={0: dict(invariant=["result + chunks_from(lst, n, i) == chunks_from(lst, n, 0)"])},
          witness=[dict(lst=[b"a", b"b", b"c"], n=2)], props=["C17", "C01"])
+
+# ---- the round trip parse(partition(ids)) == ids -----------------------------------------------------------------------
+ids_ = z3.Const("ids_", BLS)
+i_, j_, p_, s_ = z3.Ints("i_ j_ p_ s_")
+nz_upto = specfn("nz_upto", [BL, TInt], TBool, py=lambda xs, k: all(x != bytes(len(x)) for x in xs[:max(k, 0)]),
+                 doc="none of the first k identifiers is all-zero")
+nz_upto.define = lambda xs, k: z3.If(k <= 0, True, z3.And(xs[k - 1] != zeros(Len(xs[k - 1])), nz_upto(xs, k - 1)))
+lemma("nz_nth", [ids_, k, i_], Imp(And(nz_upto(ids_, k), 0 <= i_, i_ < k), ids_[i_] != zeros(Len(ids_[i_]))),
+      patterns=None, induct=("int", k), inst=[[ids_, k - 1, i_]])
+lemma("nz_mono", [ids_, k, i_], Imp(And(nz_upto(ids_, k), i_ <= k), nz_upto(ids_, i_)), patterns=None, induct=("int", k),
+      inst=[[ids_, k - 1, i_]])
+lemma("zeros_prefix", [n, l], Imp(And(0 <= l, l <= n), Ext(zeros(n), 0, l) == zeros(l)), patterns=None, uses=["zeros_add"],
+      use_inst=[("zeros_add", [l, n - l])])
+# the k-th entry of a joined run of equal-sized identifiers
+lemma("join_at", [ids_, s_, i_, j_, k],
+      Imp(And(all_len_upto(ids_, s_, j_), 0 <= i_, 0 <= k, i_ + k < j_, j_ <= Len(ids_), s_ >= 0),
+          Ext(joinr(ids_, i_, j_), k * s_, s_) == ids_[i_ + k]),
+      patterns=None, induct=("int", j_), inst=[[ids_, s_, i_, j_ - 1, k]],
+      uses=["joinr_len", "all_len_nth", "all_len_upto_mono", "mul_mono"],
+      use_inst=[("joinr_len", [ids_, s_, j_, i_, j_ - 1]), ("all_len_nth", [ids_, s_, j_, j_ - 1]),
+                ("all_len_upto_mono", [ids_, s_, j_, j_ - 1]), ("mul_mono", [k + 1, j_ - 1 - i_, s_])],
+      cases=[i_ + k < j_ - 1, i_ + k == j_ - 1])
+ba_, bb_ = z3.Consts("ba_ bb_", BYTES)
+o_ = z3.Int("o_")
+lemma("ext_concat_left", [ba_, bb_, o_, l], Imp(And(0 <= o_, l >= 0, o_ + l <= Len(ba_)), Ext(z3.Concat(ba_, bb_), o_, l) == Ext(ba_, o_, l)),
+      patterns=None)
+lemma("ext_cons", [ids_, o_, l], Imp(And(0 <= o_, l >= 1, o_ + l <= Len(ids_)),
+                                   Ext(ids_, o_, l) == z3.Concat(z3.Unit(ids_[o_]), Ext(ids_, o_ + 1, l - 1))), patterns=None)
+X_ = lambda: z3.Concat(joinr(ids_, i_, j_), zeros(p_))
+lemma("parse_pad", [ids_, s_, i_, j_, p_, k],
+      Imp(And(all_len_upto(ids_, s_, j_), nz_upto(ids_, j_), 0 <= i_, 0 <= k, i_ + k <= j_, j_ <= Len(ids_), p_ >= 0, s_ > 0),
+          parse_from(X_(), s_, k * s_) == Ext(ids_, i_ + k, j_ - (i_ + k))),
+      patterns=None, induct=("int", j_ - i_ - k), inst=[[ids_, s_, i_, j_, p_, k + 1]],
+      uses=["join_at", "joinr_len", "nz_nth", "zeros_prefix", "all_len_nth", "mul_mono", "ext_concat_left", "ext_cons"],
+      use_inst=[("ext_concat_left", [joinr(ids_, i_, j_), zeros(p_), k * s_, s_]), ("ext_cons", [ids_, i_ + k, j_ - (i_ + k)]),
+                ("join_at", [ids_, s_, i_, j_, k]), ("joinr_len", [ids_, s_, j_, i_, j_]), ("nz_nth", [ids_, j_, i_ + k]),
+                ("all_len_nth", [ids_, s_, j_, i_ + k]), ("mul_mono", [k + 1, j_ - i_, s_]),
+                ("zeros_prefix", [p_, z3.If(p_ < s_, p_, s_)])],
+      cases=[i_ + k < j_, And(i_ + k == j_, p_ == 0), And(i_ + k == j_, p_ > 0)])
+cap_, bs_, t_ = z3.Ints("cap_ bs_ t_")
+mn = lambda a_, b_: z3.If(a_ <= b_, a_, b_)
+blk = lambda ids, cap, bs, i: pad(joinr(ids, i, mn(i + cap, Len(ids))), bs)
+lemma("part_len", [ids_, cap_, bs_, i_],
+      Imp(And(cap_ > 0, 0 <= i_, i_ <= Len(ids_)), Len(part_from(ids_, cap_, bs_, i_)) == (Len(ids_) - i_ + cap_ - 1) / cap_),
+      patterns=None, induct=("int", Len(ids_) - i_), inst=[[ids_, cap_, bs_, mn(i_ + cap_, Len(ids_))]])
+lemma("part_nth", [ids_, cap_, bs_, i_, t_],
+      Imp(And(cap_ > 0, 0 <= i_, 0 <= t_, i_ + t_ * cap_ < Len(ids_)),
+          part_from(ids_, cap_, bs_, i_)[t_] == blk(ids_, cap_, bs_, i_ + t_ * cap_)),
+      patterns=None, induct=("int", t_), inst=[[ids_, cap_, bs_, i_ + cap_, t_ - 1]], uses=["part_len", "div_lower"],
+      use_inst=[("part_len", [ids_, cap_, bs_, i_ + cap_]),
+                ("div_lower", [Len(ids_) - (i_ + cap_) + cap_ - 1, t_, cap_])],
+      cases=[t_ == 0, t_ > 0])
+# one block parses back to its identifiers
+lemma("parse_block", [ids_, s_, cap_, bs_, i_],
+      Imp(And(all_len_upto(ids_, s_, Len(ids_)), nz_upto(ids_, Len(ids_)), 0 <= i_, i_ < Len(ids_), cap_ > 0, s_ > 0, bs_ >= cap_ * s_),
+          parse(blk(ids_, cap_, bs_, i_), s_) == Ext(ids_, i_, mn(i_ + cap_, Len(ids_)) - i_)),
+      patterns=None,
+      uses=["parse_pad", "joinr_len", "all_len_upto_mono", "nz_mono", "mul_mono"],
+      use_inst=[("parse_pad", [ids_, s_, i_, mn(i_ + cap_, Len(ids_)),
+                               z3.If(bs_ > s_ * (mn(i_ + cap_, Len(ids_)) - i_), bs_ - s_ * (mn(i_ + cap_, Len(ids_)) - i_), 0), z3.IntVal(0)]),
+                ("joinr_len", [ids_, s_, Len(ids_), i_, mn(i_ + cap_, Len(ids_))]),
+                ("all_len_upto_mono", [ids_, s_, Len(ids_), mn(i_ + cap_, Len(ids_))]),
+                ("nz_mono", [ids_, Len(ids_), mn(i_ + cap_, Len(ids_))]),
+                ("mul_mono", [mn(i_ + cap_, Len(ids_)) - i_, cap_, s_])])
+lemma("ext_append", [ids_, i_, j_], Imp(And(0 <= i_, 0 <= j_, i_ + j_ <= Len(ids_)),
+                                      z3.Concat(Ext(ids_, 0, i_), Ext(ids_, i_, j_)) == Ext(ids_, 0, i_ + j_)), patterns=None)
+
+# C17: parse(partition(ids)) == ids, as verified client code over the two contracts and the block lemmas
+contract("ghost:partition_parse_roundtrip", params=dict(ids=BL, cap=TInt, size=TInt, bs=TInt), returns=BL,
+         ghost_scope="toolkit/database_utils.py",
+         body="""def partition_parse_roundtrip(ids, cap, size, bs):
+    blocks = partition_identifiers_to_blocks(ids, cap, size, bs)
+    out = []
+    for b in blocks:
+        out.extend(parse_identifiers_from_block_given_identifier_size(b, size))
+    return out
+""",
+         requires=["cap > 0", "size > 0", "bs >= cap * size", "all_len(ids, size)", "nz_upto(ids, len(ids))"],
+         ensures=["result == ids"], locals={"out": BL},
+         loops={0: dict(invariant=["out == ids[:min(it * cap, len(ids))]", "blocks == part(ids, cap, bs)",
+                                   "n_iter == (len(ids) + cap - 1) // cap"],
+                        hints=[("mul_mono", ["it + 1", "(len(ids) + cap - 1) // cap", "cap"]),
+                               ("part_nth", ["ids", "cap", "bs", "0", "it"]),
+                               ("parse_block", ["ids", "size", "cap", "bs", "it * cap"]),
+                               ("ext_append", ["ids", "it * cap", "min(it * cap + cap, len(ids)) - it * cap"])])},
+         hints=[("part_len", ["ids", "cap", "bs", "0"])],
+         props=["C17", "C01"])
